@@ -11,7 +11,7 @@ Segments are separated by the token `;`.
   par reduce  <op> <init> ; xs… ; sched            → value
   par allof   <pred> ; xs… ; sched                 → 0|1
   par countif <pred> ; xs… ; sched                 → n
-  par copyif  <pred> ; xs… ; sched                 → count | out buffer (n zeros initially) after the parallel pass | final kept
+  par copyif  <pred> ; xs… ; sched                 → count | out buffer (n zeros initially) at return
   par removeif <pred> ; xs… ; sched                → kept…
   par unique  <W> ; xs… ; sched ; sched ; …        → out…
   par for <kind> <n> [; aux…] ; b e b e …          → array after the chunks ran in that order | tiles 0/1
@@ -19,7 +19,7 @@ Segments are separated by the token `;`.
   par merge <T> ; l1… ; l2…                        → merged payloads (l1 payloads 0.., l2 payloads 1000000..)
   par radix <T> <nb> ; xs… ; sched                 → sorted
 ops: add | abs (|a|+|b|) | aff (affine maps mod 65521, non-commutative) | max | and
-preds: pos (x>0) | odd | nz (x≠0) | lt5
+preds: pos (x>0) | odd | nz (x≠0) | lt5 | eq3
 -/
 namespace ParDrv
 open MV.Par Drv
@@ -40,6 +40,7 @@ def predOf : String → Option (Int → Bool)
   | "odd" => some fun x => x % 2 != 0
   | "nz" => some (· != 0)
   | "lt5" => some (· < 5)
+  | "eq3" => some (· == 3)
   | _ => none
 
 /-- parse one schedule from a token list, returning the rest -/
@@ -98,9 +99,8 @@ def handle (toks : List String) : String :=
     | some p, some xs, some t =>
       if !t.valid xs.length && !xs.isEmpty then "bad-sched" else
       let out := List.replicate xs.length (0 : Int)
-      let pass := parCopyIfPass p t xs out
       let fin := parCopyIf p t xs out
-      s!"{pass.2} | {joinInt pass.1} | {joinInt (fin.1.take fin.2)}"
+      s!"{fin.2} | {joinInt fin.1}"
     | _, _, _ => "bad-op"
   | ["removeif", p] :: xs :: [sc] =>
     match predOf p, ints? xs, sched? sc with
